@@ -70,10 +70,17 @@ def expand(program, origin=None):
     rules_of = {}
     for r in rules: rules_of.setdefault(r.pred, []).append(r)
     fn = None
+    pending_new = {p.new for p in pending}
+    def closure(p, acc):
+      if p in acc: return acc
+      acc.add(p)
+      for d in (pred_deps(rules_of, p) if p in rules_of else ()): closure(d, acc)
+      return acc
     for cand in pending:
-      # applicable once F and the values are plain predicates (defined by rules or base tables)
-      names = {cand.base} | {b for _, b in cand.bindings}
-      if not any(n in {p.new for p in pending} for n in names): fn = cand; break
+      # applicable once F, the values and everything they are built from are plain predicates
+      names = set()
+      for n in {cand.base} | {b for _, b in cand.bindings}: closure(n, names)
+      if not (names & pending_new): fn = cand; break
     if fn is None: raise FunctorArgumentError('cyclic functor definitions')
     pending.remove(fn)
     args = dict(fn.bindings)
